@@ -801,9 +801,13 @@ func notNil(v reflect.Value) bool {
 }
 
 func (st *Runtime) isSet(node Node) (ok bool) {
+	// state that constructs evaluated below (a range inside exec(), YieldBlock, ...) restore only when they exit normally
+	scope, context, content := st.scope, st.context, st.content
+
 	defer func() {
 		if r := recover(); r != nil {
 			// something panicked while evaluating node
+			st.scope, st.context, st.content = scope, context, content
 			ok = false
 		}
 	}()
